@@ -88,6 +88,11 @@ Families ==
          \* pending-wrap column, in insert mode, with autowrap off (widths are facts logged by the harness at replay)
          UNION { { [c |-> g[1], l |-> g[2], h |-> Fill(g[1], g[2]) \o mm \o PlaceWrap(g[1], <<>>, FALSE, 0, x, 122)] :
                    mm \in { <<>>, <<EvM("sm", <<4>>, FALSE)>>, <<EvM("rm", <<7>>, TRUE)>> }, x \in {1, g[1]} } : g \in Geoms }
+    [] Model = "Psweep" ->
+         \* parameter sweep on a 300-column and a 300-line screen: values around every power of two up to 4096 and the
+         \* extremes, from both ends - a truncated or mis-clamped parameter shows where small screens clamp it away
+         UNION { { [c |-> g[1], l |-> g[2], h |-> << EvS("draw", <<113>>), Ev("cup", <<y + 1, x + 1>>) >>] :
+                   x \in {0, g[1] - 1}, y \in {0, g[2] - 1} } : g \in Geoms }
     [] Model = "C18all" ->
          \* every width 1..140 with its power-on stops, cursor at every column incl. pending wrap
          UNION { { [c |-> g[1], l |-> g[2], h |-> PlaceWrap(g[1], <<>>, FALSE, 0, x, 122)] : x \in 0..g[1] } : g \in Geoms }
@@ -175,6 +180,7 @@ GThorough == GTiny \cup GSmall \cup GMore
 GRows  == { <<3, 1>>, <<3, 2>>, <<3, 3>>, <<3, 4>>, <<2, 5>> }
 GRowsQuick == { <<3, 1>>, <<3, 2>>, <<3, 3>>, <<2, 4>> }
 GWide  == { <<9, 1>>, <<17, 1>>, <<20, 2>>, <<80, 1>>, <<132, 1>>, <<140, 1>> }
+GLong  == { <<300, 1>>, <<1, 300>> }
 GAllW  == { <<w, 1>> : w \in 1..140 }
 GAllWQuick == { <<w, 1>> : w \in {1, 2, 7, 8, 9, 10, 15, 16, 17, 24, 25, 33, 40, 64, 65, 80, 81, 100, 132, 133, 139, 140} }
 GWideQuick == { <<9, 1>>, <<20, 1>>, <<80, 1>> }
@@ -188,6 +194,7 @@ Texts == { <<a>> : a \in Alphabet } \cup { <<a, b>> : a \in Alphabet, b \in Alph
          \cup (IF TextLen >= 3 THEN { <<a, b, c>> : a \in Alphabet, b \in Alphabet, c \in {120, WIDE, COMB} } ELSE {})
 ModeNumbers == (0..ModeMax) \cup {96, 160, 192, 224, 800, 1049, 2004, 9999}
 DrawCps == (0..255) \cup {256, 9472, WIDE}
+SweepParams == (0..40) \cup {63, 64, 65, 127, 128, 129, 255, 256, 257, 299, 300, 301, 511, 512, 513, 1023, 1024, 1025, 4095, 4096, 9998, 9999}
 \* all of 0..900 (ASCII, C1, Latin-1, Latin Extended, IPA, combining diacriticals) and members of the classes further up
 SweepChars == (0..900) \cup {4352, 8203, 8204, 8205, 8206, 8232, 8288, 8413, 9786, 12288, 12295, 19968, 44032, 65039, 65279, 65281,
                              65533, 127462, 128512, 917505, 1114111}
@@ -200,6 +207,9 @@ MoveEvents(s) ==
 Events(s) ==
   CASE Model = "C05" -> MoveEvents(s)
     [] Model = "C04sweep" -> { EvS("draw", <<cp>>) : cp \in SweepChars }
+    [] Model = "Psweep" ->
+         { Ev(op, <<n>>) : op \in {"cuu", "cud", "cuf", "cub", "cnl", "cpl", "cha", "vpa", "ich", "dch", "ech", "il", "dl"}, n \in SweepParams }
+         \cup { Ev("cup", <<n, n>>) : n \in SweepParams } \cup { Ev("decstbm", <<2, n>>) : n \in SweepParams }
     [] Model = "C18all" -> { Ev("ht", <<>>) }
     [] Model \in {"C18", "C18w"} -> { Ev("ht", <<>>), Ev("hts", <<>>) } \cup { Ev("tbc", <<n>>) : n \in {-1, 0, 1, 2, 3, 4, 9999} }
     [] Model = "C06" -> { Ev(op, <<>>) : op \in {"ind", "lf", "ri"} }
